@@ -2,10 +2,17 @@ CHECK = {
         "obligations": ["C14.c14_exactly_once", "C14.c14_inv", "C14.c14_fifo_whole", "C14.c14_short", "C14.c14_drain", "C14.c14_oversize", "C14.c14_oversize_cloak",
                         "C14.c14_isolation", "C14.sess_sim",
                         "C14.gen_eof", "C14.gen_has", "C14.gen_short", "C14.gen_closing", "C14.gen_fits", "C14.gen_loop", "C14.gen_max",
-                        "C14.gen_max_cloak", "C14.gen_structure", "C14.write_eq", "C14.read_eq", "DgDemux.isolation"],
+                        "C14.gen_max_cloak", "C14.gen_structure", "C14.write_eq", "C14.read_eq", "DgDemux.isolation",
+                        "C14.c14_entry_whole", "C14.c14_entry_transparent", "C14.c14_readfrom_whole", "C14.c14_readfrom_stream_unchanged",
+                        "C14.gen_entry", "C14.gen_readfrom", "C14.gen_readfrom_refuses", "C14.gen_readfrom_room",
+                        "C14.c14_entry_pinned_witness", "C14.c14_entry_pinned_truncates", "C14.c14_readfrom_pinned_witness"],
         "scenarios": ["C14"],
         "reset_ops": ["dg.new", "dg.snew"],
-        "rule": "(a) seeded op scripts on the real datagramBufferedPipe (writes of 0..3200 bytes incl. closing frames, reads with capacity head-1/head/head+k/0, "
+        "rule": "(c) entry points from a UDP socket: Stream.ReadFrom on unordered streams fed by a packet-oriented source (one Read = one datagram, "
+                "excess discarded; sizes 1..max-1, max, max+1, max+2, max+300, 40000, 65507 + seeded, four methods, limit default/16401) and by a byte source; "
+                "the REAL client.RouteUDP bound to 127.0.0.1:0 (loopback UDP, real time, 4 s deadline + one retry; non-arrival is not a violation) with datagrams of "
+                "1, 100, 8191, 8192, 8193, 9000, 16132, 16133, 30000.. bytes from 1 (3) local sockets; the peer stream must read each datagram whole or nothing of it. "
+                "(a) seeded op scripts on the real datagramBufferedPipe (writes of 0..3200 bytes incl. closing frames, reads with capacity head-1/head/head+k/0, "
                 "local close, final drain) + concurrent writers with short reads in between; (b) unordered Session pairs over an in-memory network, four "
                 "encryption methods, MsgOnWireSizeLimit default/16401: every per-connection-FIFO arrival order of n<=5 datagrams over 8 connections and 1-3 "
                 "streams (coverage of the n! orders reported in harness_stats), then seeded cases with sizes 1..max, max, max+1.., sequential and concurrent "
